@@ -27,6 +27,26 @@ Theorem C18_stdout_multiset :
     Permutation (stdout_of (out s)) (stdout_of (fst (cli_run o io lib t))).
 Proof. exact cli_stdout_multiset. Qed.
 
+(* Atomicity: the sequence of blocks written (one block per stdout-lock acquisition: the lines of one
+   rule event, or one count line, or one line of the producer) is an interleaving of the producer's
+   lines and of the complete block lists of the scanned files, every file's blocks in their own order;
+   the output is the concatenation of these blocks, so no block is ever split. *)
+Theorem C18_interleaving :
+  forall (o : cb_options) (io : in_options) (lib : libfn) (t : target) (n cap : nat) (s : Pool.state bytes line),
+    reachable (worker_blocks o lib) cap (init (producer io t) n) s -> terminal s ->
+    out s = concat (log s)
+    /\ Permutation (scanned s) (sent_files (producer io t))
+    /\ MergeR (map (fun l => [l]) (producer_lines (producer io t)) :: map (worker_blocks o lib) (scanned s)) (log s).
+Proof. exact cli_interleaving. Qed.
+
+(* what MergeR means *)
+Theorem C18_merge_subseq :
+  forall (B : Type) (ls : list (list B)) (lg : list B), MergeR ls lg -> forall l, In l ls -> Subseq l lg.
+Proof. exact (@MergeR_subseq). Qed.
+Theorem C18_merge_perm :
+  forall (B : Type) (ls : list (list B)) (lg : list B), MergeR ls lg -> Permutation (concat ls) lg.
+Proof. exact (@MergeR_perm_concat). Qed.
+
 (* the same two statements for an arbitrary pool (any file type, any per-file blocks) *)
 Theorem C18_pool_exactly_once :
   forall (F L : Type) (blocks_of : F -> list (list L)) (cap : nat) (acts : list (L + F)) (n : nat) (s : Pool.state F L),
@@ -108,6 +128,9 @@ Proof. vm_compute. reflexivity. Qed.
 Print Assumptions C18_exactly_once.
 Print Assumptions C18_multiset.
 Print Assumptions C18_stdout_multiset.
+Print Assumptions C18_interleaving.
+Print Assumptions C18_merge_subseq.
+Print Assumptions C18_merge_perm.
 Print Assumptions C18_pool_exactly_once.
 Print Assumptions C18_pool_invariant.
 Print Assumptions C18_progress.
